@@ -444,6 +444,36 @@ fn exec_inner(line: &str) -> String {
             let a = h!(a);
             by_enc!(*e, hash, &a)
         }
+        ["u8dot", e, s] => {
+            // the UTF-8 family's own dot split (characters), through file_stem / extension of every UTF-8 form
+            let b = h!(s);
+            let Ok(st) = std::str::from_utf8(&b) else { return BAD.into() };
+            let win = *e == "w";
+            let (stem, ext): (Option<Vec<u8>>, Option<Vec<u8>>) = if win {
+                let p = Utf8WindowsPath::new(st);
+                (p.file_stem().map(|x| x.as_bytes().to_vec()), p.extension().map(|x| x.as_bytes().to_vec()))
+            } else {
+                let p = Utf8UnixPath::new(st);
+                (p.file_stem().map(|x| x.as_bytes().to_vec()), p.extension().map(|x| x.as_bytes().to_vec()))
+            };
+            let tp = if win { Utf8TypedPath::windows(st) } else { Utf8TypedPath::unix(st) };
+            let tb = tp.to_path_buf();
+            let same = tp.file_stem().map(|x| x.as_bytes().to_vec()) == stem
+                && tp.extension().map(|x| x.as_bytes().to_vec()) == ext
+                && tb.file_stem().map(|x| x.as_bytes().to_vec()) == stem
+                && tb.extension().map(|x| x.as_bytes().to_vec()) == ext;
+            format!("stem={} ext={}{}", opt_bytes(stem.as_deref()), opt_bytes(ext.as_deref()), if same { "" } else { " FAMILIES-DISAGREE" })
+        }
+        ["u8valid", e, s] => {
+            let b = h!(s);
+            let Ok(st) = std::str::from_utf8(&b) else { return BAD.into() };
+            let win = *e == "w";
+            let v = if win { Utf8WindowsPath::new(st).is_valid() } else { Utf8UnixPath::new(st).is_valid() };
+            let vc = if win { Utf8WindowsPath::new(st).components().all(|c| c.is_valid()) } else { Utf8UnixPath::new(st).components().all(|c| c.is_valid()) };
+            let vo = if win { Utf8WindowsPathBuf::from(st).is_valid() } else { Utf8UnixPathBuf::from(st).is_valid() };
+            let same = vc == v && vo == v;
+            format!("{}{}", b01(v), if same { "" } else { " FAMILIES-DISAGREE" })
+        }
         ["lossy", s] => {
             // `to_str` / `to_string_lossy` / `display()` / `Display` of every family that offers them, on the
             // same bytes; all must say the same, and that is what the model (Spec/Lossy.lean) is compared with
